@@ -47,6 +47,11 @@ CHECKS = {
     technique="z3 polynomial-identity check of each derived ISR expectation-value block contribution and transition moment against the order-n coefficient of the explicit matrix element (operator minus ground-state expectation value) between intermediate states / the normalised perturbed ground state built on occupation bit strings, contracted with free amplitude vectors using the documented normalisation",
     text="For pp/ip/ea (thorough: dip/dea too) and the mixed ip/pp, pp/ea combinations, blocks of the two lowest classes, 1- and 2-particle operators, orders <=2, subtract_gs on/off, the scalar returned by the real code equals the explicit matrix-element contraction for all integrals, operator matrices, amplitude vectors and ground-state amplitudes of the model.",
     note="Same parametrisation and models as C03. Operator strings with unequal numbers of creators/annihilators are covered for transition moments (default string per variant + one non-default)."),
+ "C20": dict(
+    level=TV, design="2/C20", engine="tvsmt",
+    technique="SMT translation validation of simplify_unitary with the named tensor valued as an orthogonal matrix through a complete, homogenised rational parametrisation (rotation / Euler-Rodrigues quaternion, both determinant sheets): z3 decides value equality for all parameters, remainder entries and target assignments",
+    text="Each run of the real simplify_unitary (with and without delta evaluation, explicit or Einstein targets) on generated products of 2-5 unitary tensors is validated for every orthogonal matrix of dimension 2 or 3 on the tensor's index space.",
+    note="Orthogonal groups O(2), O(3) only; total degree in the unitary tensor <= 6 (thorough 7); shapes from a seeded generator. A self-test proves U_pq U_pr c_qr = c_qq and refutes the mixed-position variant on every run."),
 }
 NA_REASON = "check not built yet in this round (planned, see DESIGN.md section 2)"
 
